@@ -39,6 +39,19 @@ class Prior(Distribution, Module, ABC):
         if isinstance(self, TransformedDistribution):
             _load_transformed_to_base_dist(self)
 
+    def _load_from_state_dict(self, *args, **kwargs):
+        # also reached when the state dict is loaded through a parent module (kernel / likelihood / model)
+        super()._load_from_state_dict(*args, **kwargs)
+        if isinstance(self, TransformedDistribution):
+            _load_transformed_to_base_dist(self)
+
+    def _apply(self, fn, *args, **kwargs):
+        # dtype / device moves replace the `_transformed_*` buffers by new tensors: re-tie the base distribution
+        module = super()._apply(fn, *args, **kwargs)
+        if isinstance(self, TransformedDistribution):
+            _load_transformed_to_base_dist(self)
+        return module
+
     def __setattr__(self, name: str, value: Any) -> None:
         if hasattr(self, name) and "_transformed_" in name:
             base_attr_name = name.replace("_transformed_", "")
